@@ -1,7 +1,8 @@
 /-
   Xsel/Render.lean — a canonical spelling of an expression as a token list: unabbreviated steps
   (`axis::test[pred]…`), parentheses exactly where precedence and the shape of the tree need them.
-  `Proofs/C08` proves that the parser reads every such spelling back as the tree it came from.
+  `Proofs/C08.parse_render` (proof: `Proofs/Lemmas/ParseRender*.lean`) shows that the parser reads every
+  such spelling back as the tree it came from.
 -/
 import Xsel.Parse
 
@@ -117,5 +118,38 @@ def render (e : Expr) (min : Nat) : Toks := wrap (level e) min (raw e)
 def renderTop : Expr → Toks
   | .root => [T (.p .slash)]
   | e => render e 0
+
+/-! ### trees that have a canonical spelling -/
+
+/-- a number the canonical spelling can express: `numToStr n` is `Digits` or `Digits '.' Digits`
+    and reads back as `n` -/
+def numOk (n : Num) : Bool :=
+  let s := numToStr n
+  let ip := s.takeWhile isDigit
+  match s.dropWhile isDigit with
+  | [] => !ip.isEmpty && (parseUnsigned s).map Num.rnd == some n
+  | ch :: fr => ch == '.' && !ip.isEmpty && !fr.isEmpty && fr.all isDigit &&
+      (parseUnsigned (ip ++ '.' :: fr)).map Num.rnd == some n
+
+def noColon (s : Chars) : Bool := s.all (· != ':')
+
+mutual
+def wfE : Expr → Bool
+  | .bin _ l r => wfE l && wfE r
+  | .neg e => wfE e
+  | .num n => numOk n
+  | .lit _ => true
+  | .var none nm => noColon nm
+  | .var (some p) _ => noColon p
+  | .call b _ _ as => wfE b && wfEs as
+  | .root => true
+  | .ctx => true
+  | .step b _ _ ps => wfE b && wfEs ps
+  | .filt b p => wfE b && wfE p
+def wfEs : Exprs → Bool
+  | .nil => true
+  | .cons e es => wfE e && wfEs es
+end
+
 
 end Xsel.Syntax
